@@ -18,7 +18,7 @@ lin = """lin_ctors_spec lin_add_lin_spec lin_add_rat_spec rat_add_lin_spec lin_s
 lin_neg_spec lin_mul_rat_spec rat_mul_lin_spec lin_div_rat_spec lin_div_inf_spec
 lin_compound_is_binary lin_muleq_rat_spec lin_diveq_rat_spec lin_diveq_inf_spec lin_neg_is_minus_one lop_run_spec""".split()
 strs = """decimal_printing_spec rat_to_string_inj irat_to_string_inj irat_to_string_refuted_without_side_condition
-lin_to_string_inj lin_to_string_inj_coefs""".split()
+lin_to_string_inj lin_to_string_inj_coefs asrt_key_inj""".split()
 names = rat+irat+lin+strs
 pre = '''From Coq Require Import ZArith NArith QArith List Bool String Ascii.
 From ORatio Require Import gen.Gen_arith base.RatSpec base.Lin base.DecStr base.ArithStr.
@@ -74,7 +74,7 @@ doc['str']=("(* ---- printed keys: std::to_string of integers (base/DecStr.v) an
  "   injective where the infinitesimal part is then zero (icanon), refuted otherwise (witness +inf vs +inf + eps) *)")
 old={'decimal_printing_spec':'C15_decimal_printing_injective','rat_to_string_inj':'C15_rational_to_string_injective',
      'irat_to_string_inj':'C15_inf_rational_to_string_injective','irat_to_string_refuted_without_side_condition':'C15_inf_rational_to_string_injective_without_side_condition_refuted',
-     'lin_to_string_inj':'C15_lin_to_string_injective','lin_to_string_inj_coefs':'C15_lin_to_string_injective_unsorted',
+     'lin_to_string_inj':'C15_lin_to_string_injective','lin_to_string_inj_coefs':'C15_lin_to_string_injective_unsorted','asrt_key_inj':'C15_assertion_key_injective',
      'ctor2_spec':'C15_ctor_canonical','neg_spec':'C15_neg_exact','lt_spec':'C15_lt_exact','le_spec':'C15_le_exact','eq_spec':'C15_eq_exact',
      'ne_spec':'C15_ne_exact','ge_spec':'C15_ge_exact','gt_spec':'C15_gt_exact','rat_order_total':'C15_order_total'}
 out=[hdr]
